@@ -55,13 +55,15 @@ def directed_plans(tier):
         out.append({**base, 'design': d, 'labels': [3, 11, 12, 30]})
     out.append({**base, 'use_same_signal': False, 'noise': 1, 'noise_cov': True})
     out.append({**base, 'kind': 'weighted', 'theta': [2.0, 0.5]})
-    # the one history (found by the thorough tier, VERIF_SEED=0) on which the exact-signal construction breaks down
-    # macroscopically for n_channel == n_cond: kept as a directed scenario so that the known finding is re-observed
+    # two histories (thorough tier VERIF_SEED=0; quick tier VERIF_SEED=6) on which the exact-signal construction breaks down
+    # macroscopically: model RDMs with two identical conditions whose second-moment matrix makes scipy's LDL use a 2x2
+    # pivot. Kept as directed scenarios so that the known finding is re-observed on every run.
     import json
     import os
-    f = os.path.join(os.path.dirname(os.path.abspath(__file__)), 'data', 'c18_equal_channels_plan.json')
-    if os.path.exists(f):
-        out.append(json.load(open(f)))
+    for name in ('c18_ldl_pivot_plan_a.json', 'c18_ldl_pivot_plan_b.json'):
+        f = os.path.join(os.path.dirname(os.path.abspath(__file__)), 'data', name)
+        if os.path.exists(f):
+            out.append(json.load(open(f)))
     return out
 
 
@@ -155,6 +157,23 @@ def _simulate(ctx, plan, noise, noise_cov, script=None, strict=False):
                           noise=noise, noise_cov_channel=noise_cov, use_exact_signal=plan['use_exact_signal'],
                           use_same_signal=plan['use_same_signal'])
     return ds, seam, (m, theta, pred, cv, cidx, labels)
+
+
+def _g_tag(pred):
+    """signature tag only (never part of a verdict): does the LDL factorisation of the model's second-moment matrix,
+    taken the way make_signal takes it, need a 2x2 pivot block?  Then L has entries ~1e14 and the factor L*sqrt(D) with
+    the tiny off-diagonal of D zeroed is no factor of G -- the call-site class of the listed known finding"""
+    try:
+        import scipy.linalg as sl
+        n = pred.shape[0]
+        H = np.eye(n) - np.ones((n, n)) / n
+        G = -0.5 * (H @ pred @ H)
+        L, D, _ = sl.ldl(G)
+        if np.abs(L).max() > 1e6 or np.abs(D - np.diag(np.diag(D))).max() > 0:
+            return ':G-ldl-2x2-pivot'
+    except Exception:
+        pass
+    return ''
 
 
 def _rdm_from_data(meas, cidx, nc):
@@ -279,7 +298,7 @@ def execute(plan, ctx):
             got = _rdm_from_data(sig_terms[s], cidx, nc)
             err = float(np.max(np.abs(got - exp)))
             if err > tol * scale:
-                ctx.violation('sim_ref.clause1', 'make_dataset:exact-rdm' + (':n_channel==n_cond' if n_ch == nc else ''),
+                ctx.violation('sim_ref.clause1', 'make_dataset:exact-rdm' + _g_tag(pred),
                               f'simulation {s}: squared-Euclidean RDM of the simulated signal differs from signal*model RDM by {err} '
                               f'(signal={plan["signal"]}, design={plan["design"]}, n_cond={nc}, n_channel={n_ch}); '
                               f'got row0 {got[0].tolist()} expected {exp[0].tolist()}')
